@@ -234,3 +234,115 @@ package protocol
 //@   ensures C14.layout.LockResultCommand.enc: implies(len(buf) >= 64, result == nil && lockResultLayout(self, buf) && forall(k, 60, 64, buf[k] == 0))
 //@   ensures C14.layout.LockResultCommand.enc-short: implies(len(buf) < 64, result != nil)
 //@   inline
+
+
+// =====================================================================================================
+// C13: thin safety contracts (facts that callers establish), derived from the call sites
+// =====================================================================================================
+// the incremental text parser's cursor state
+//@ spec func parserInv(p) = 0 <= p.bufIndex && p.bufIndex <= p.bufLen && p.bufLen <= len(p.rbuf) && 0 <= p.cargIndex && len(p.carg) == 128 && implies(p.stage != 4, p.cargIndex <= 128) && implies(p.stage == 4 && p.cargIndex > 0, len(p.args) >= 1)
+
+//@ func (*TextParser).ParseRequest
+//@   requires self != nil && parserInv(self)
+//@   safe
+//@   loop#1 invariant parserInv(self)
+//@   loop#2 invariant parserInv(self) && self.stage == 1
+//@   loop#3 invariant parserInv(self) && self.stage == 3
+//@   loop#4 invariant parserInv(self) && self.stage == 4 && self.cargIndex >= 0
+//@   ensures C13.parser.request: parserInv(self)
+//@ func (*Command).Decode
+//@   requires self != nil && len(buf) >= 64
+//@   inline
+//@ func (*Command).Encode
+//@   requires self != nil && len(buf) >= 64
+//@   inline
+//@ func (*ResultCommand).Decode
+//@   requires self != nil && len(buf) >= 64
+//@   inline
+//@ func (*ResultCommand).Encode
+//@   requires self != nil && len(buf) >= 64
+//@   inline
+//@ func (*StateCommand).Decode
+//@   requires self != nil && len(buf) >= 64
+//@   inline
+//@ func (*StateCommand).Encode
+//@   requires self != nil && len(buf) >= 64
+//@   inline
+//@ func (*StateResultCommand).Decode
+//@   requires self != nil && len(buf) >= 64
+//@   inline
+//@ func (*StateResultCommand).Encode
+//@   requires self != nil && len(buf) >= 64
+//@   inline
+//@ func (*AdminCommand).Decode
+//@   requires self != nil && len(buf) >= 64
+//@   inline
+//@ func (*AdminCommand).Encode
+//@   requires self != nil && len(buf) >= 64
+//@   inline
+//@ func (*AdminResultCommand).Decode
+//@   requires self != nil && len(buf) >= 64
+//@   inline
+//@ func (*AdminResultCommand).Encode
+//@   requires self != nil && len(buf) >= 64
+//@   inline
+//@ func (*PingCommand).Decode
+//@   requires self != nil && len(buf) >= 64
+//@   inline
+//@ func (*PingCommand).Encode
+//@   requires self != nil && len(buf) >= 64
+//@   inline
+//@ func (*PingResultCommand).Decode
+//@   requires self != nil && len(buf) >= 64
+//@   inline
+//@ func (*PingResultCommand).Encode
+//@   requires self != nil && len(buf) >= 64
+//@   inline
+//@ func (*QuitCommand).Decode
+//@   requires self != nil && len(buf) >= 64
+//@   inline
+//@ func (*QuitCommand).Encode
+//@   requires self != nil && len(buf) >= 64
+//@   inline
+//@ func (*QuitResultCommand).Decode
+//@   requires self != nil && len(buf) >= 64
+//@   inline
+//@ func (*QuitResultCommand).Encode
+//@   requires self != nil && len(buf) >= 64
+//@   inline
+//@ func (*CallCommand).Decode
+//@   requires self != nil && len(buf) >= 64
+//@   inline
+//@ func (*CallCommand).Encode
+//@   requires self != nil && len(buf) >= 64
+//@   inline
+//@ func (*CallResultCommand).Decode
+//@   requires self != nil && len(buf) >= 64
+//@   inline
+//@ func (*CallResultCommand).Encode
+//@   requires self != nil && len(buf) >= 64
+//@   inline
+//@ func (*LeaderCommand).Decode
+//@   requires self != nil && len(buf) >= 64
+//@   inline
+//@ func (*LeaderCommand).Encode
+//@   requires self != nil && len(buf) >= 64
+//@   inline
+//@ func (*LeaderResultCommand).Decode
+//@   requires self != nil && len(buf) >= 64
+//@   inline
+//@ func (*LeaderResultCommand).Encode
+//@   requires self != nil && len(buf) >= 64
+//@   inline
+//@ func (*SubscribeCommand).Decode
+//@   requires self != nil && len(buf) >= 64
+//@   inline
+//@ func (*SubscribeCommand).Encode
+//@   requires self != nil && len(buf) >= 64
+//@   inline
+//@ func (*SubscribeResultCommand).Decode
+//@   requires self != nil && len(buf) >= 64
+//@   inline
+//@ func (*SubscribeResultCommand).Encode
+//@   requires self != nil && len(buf) >= 64
+//@   inline
